@@ -8,7 +8,9 @@
 (* field rename / retype / insert / delete / swap, signal <-> message);    *)
 (* NOISE actions change only where and how it is written (comments, blank  *)
 (* lines, unrelated definitions, another file, a sub-directory, import     *)
-(* order, hexadecimal id spelling, recompilation in another process).      *)
+(* order, hexadecimal id spelling, recompilation in another process, an    *)
+(* edit of the BODY of a struct the definition uses as a field type - the  *)
+(* type text in the definition stays the same).                            *)
 (* The hash is an uninterpreted injective function of Canon, so:           *)
 (*    every edit changes the hash, no noise does,                          *)
 (* and two versions of a behaviour have equal hashes iff equal Canon.      *)
@@ -22,14 +24,14 @@ CONSTANTS MaxSteps, GenOn
 Names == {"MSGA", "MSGB", "MSG_WITH_A_NAME_THAT_GOES_PAST_COLUMN_FORTY_EIGHT_CHARS"}
 Ids == {1010, 1011}
 FNames == {"a", "b", "c"}
-FTypes == {"int32", "uint32", "char[8]", "double[2]"}
+FTypes == {"int32", "uint32", "char[8]", "double[2]", "OTHER_S", "OTHER_S[2]"}     \* OTHER_S: a struct defined in another file
 Field(n, t) == <<n, t>>
 
 VARIABLES def, place, steps, hist
 vars == <<def, place, steps, hist>>
 
 (* place: how/where the definition is written - never part of Canon *)
-Place0 == [file |-> "root", comments |-> 0, blanks |-> 0, unrelated |-> 0, hexid |-> FALSE, imporder |-> 0, proc |-> 0]
+Place0 == [file |-> "root", comments |-> 0, blanks |-> 0, unrelated |-> 0, hexid |-> FALSE, imporder |-> 0, proc |-> 0, structbody |-> 0]
 Canon(d) == <<d.name, d.id, d.fields>>
 
 FieldNames(d) == {d.fields[i][1] : i \in DOMAIN d.fields}
@@ -62,13 +64,15 @@ Move         == \E f \in {"root", "imported", "subdir", "nested"} \ {place.file}
 HexId        == Noise("HexId", [place EXCEPT !.hexid = ~@])
 ReorderImp   == Noise("ReorderImports", [place EXCEPT !.imporder = 1 - @])
 Recompile    == Noise("RecompileOtherProcess", [place EXCEPT !.proc = @ + 1])
+EditStruct   == Noise("EditUsedStruct", [place EXCEPT !.structbody = 1 - @])
 
 EditStep == Rename \/ ChangeId \/ RenameField \/ RetypeField \/ InsertField \/ DeleteField \/ SwapFields
-NoiseStep == AddComment \/ AddBlank \/ AddUnrelated \/ Move \/ HexId \/ ReorderImp \/ Recompile
+NoiseStep == AddComment \/ AddBlank \/ AddUnrelated \/ Move \/ HexId \/ ReorderImp \/ Recompile \/ EditStruct
 Next == EditStep \/ NoiseStep
 
 Init == /\ def \in {[name |-> "MSGA", id |-> 1010, fields |-> fs] :
-                      fs \in {<<>>, <<Field("a", "int32")>>, <<Field("a", "int32"), Field("b", "char[8]")>>}}
+                      fs \in {<<>>, <<Field("a", "int32")>>, <<Field("a", "int32"), Field("b", "char[8]")>>,
+                              <<Field("a", "int32"), Field("b", "OTHER_S")>>, <<Field("a", "OTHER_S[2]")>>}}
         /\ place = Place0 /\ steps = 0
         /\ hist = IF GenOn THEN <<[a |-> "Init", v |-> [def |-> def, place |-> Place0]]>> ELSE <<>>
 Spec == Init /\ [][Next]_vars
